@@ -63,6 +63,7 @@ alphabet!(Dst {
     ForeignLinkLocalLow24 => "foreign-linklocal-sharing-low-24-bits",
     SolNodeForeign => "solicited-node-shaped-not-ours",
     McastLast3Ours => "non-solicited-node-multicast-ending-like-ours",
+    Subnet2Bcast => "second-subnet-bcast",
 });
 alphabet!(Src {
     OnLink => "onlink",
@@ -73,6 +74,14 @@ alphabet!(Src {
     Mcast => "multicast",
     Loopback => "loopback",
     Own => "own",
+    Bcast2 => "second-subnet-bcast",
+});
+alphabet!(Layout {
+    Same2 => "[own, own-second-addr] (same IP version)",
+    V4V6 => "[ipv4/24, ipv6/64]",
+    V6V4 => "[ipv6/64, ipv4/24]",
+    Host32First => "[ipv4 other/32, ipv4/24]",
+    TwoSubnets => "[ipv4/24, ipv4/24 second subnet]",
 });
 alphabet!(Port {
     Match => "matching",
@@ -113,6 +122,34 @@ pub const DEFAULT_ACK: u32 = 0x5000_0001;
 
 const fn v6(hi: u16, b: u16, c: u16, lo: u16) -> [u8; 16] {
     [(hi >> 8) as u8, hi as u8, (b >> 8) as u8, b as u8, (c >> 8) as u8, c as u8, 0, 0, 0, 0, 0, 0, 0, 0, (lo >> 8) as u8, lo as u8]
+}
+
+/// second IPv4 subnet 172.16.5.0/24 (layout TwoSubnets) and the host address of layout
+/// Host32First
+pub const SUBNET2_OWN: [u8; 4] = [172, 16, 5, 1];
+pub const SUBNET2_BCAST: [u8; 4] = [172, 16, 5, 255];
+pub const HOST32_OWN: [u8; 4] = [10, 9, 9, 9];
+
+/// The interface's address table (address, prefix length) in table order for a layout; the
+/// cell's IP version decides which family "own"/"own-second-addr" refer to.
+pub fn address_table(ver: Ver, layout: Layout) -> Vec<(Addr, u8)> {
+    let (a4, a6) = (addrs(Ver::V4), addrs(Ver::V6));
+    match layout {
+        Layout::Same2 => {
+            let a = addrs(ver);
+            vec![(a.my, a.prefix_len), (a.my2, a.prefix_len2)]
+        }
+        Layout::V4V6 => vec![(a4.my, 24), (a6.my, 64)],
+        Layout::V6V4 => vec![(a6.my, 64), (a4.my, 24)],
+        Layout::Host32First => vec![(Addr::V4(HOST32_OWN), 32), (a4.my, 24)],
+        Layout::TwoSubnets => vec![(a4.my, 24), (Addr::V4(SUBNET2_OWN), 24)],
+    }
+}
+
+/// the interface's other address of the cell's IP version, if the layout has one
+pub fn own2_addr(ver: Ver, layout: Layout) -> Option<Addr> {
+    let my = addrs(ver).my;
+    address_table(ver, layout).into_iter().map(|x| x.0).find(|a| *a != my && matches!((a, ver), (Addr::V4(_), Ver::V4) | (Addr::V6(_), Ver::V6)))
 }
 
 pub struct Addrs {
@@ -170,7 +207,9 @@ pub fn dst_addr(ver: Ver, d: Dst) -> Option<Addr> {
         (_, Dst::OffLink) => a.off,
         (Ver::V4, Dst::SubnetBcast) => Addr::V4([192, 168, 69, 255]),
         (Ver::V4, Dst::LimitedBcast) => Addr::V4([255; 4]),
-        (Ver::V6, Dst::SubnetBcast) | (Ver::V6, Dst::LimitedBcast) => return None,
+        (Ver::V6, Dst::SubnetBcast) | (Ver::V6, Dst::LimitedBcast) | (Ver::V6, Dst::Subnet2Bcast) => return None,
+        // broadcast address of the second IPv4 subnet (layout TwoSubnets only, see `valid`)
+        (Ver::V4, Dst::Subnet2Bcast) => Addr::V4(SUBNET2_BCAST),
         // IPv4 all-systems 224.0.0.1 is the IPv4 counterpart of ff02::1
         (Ver::V4, Dst::AllNodes) => Addr::V4([224, 0, 0, 1]),
         (Ver::V6, Dst::AllNodes) => Addr::V6(v6(0xff02, 0, 0, 1)),
@@ -209,7 +248,8 @@ pub fn src_addr(ver: Ver, s: Src) -> Option<Addr> {
         (Ver::V6, Src::Unspec) => Addr::V6([0; 16]),
         (Ver::V4, Src::Bcast) => Addr::V4([192, 168, 69, 255]),
         (Ver::V4, Src::LBcast) => Addr::V4([255; 4]),
-        (Ver::V6, Src::Bcast) | (Ver::V6, Src::LBcast) => return None,
+        (Ver::V6, Src::Bcast) | (Ver::V6, Src::LBcast) | (Ver::V6, Src::Bcast2) => return None,
+        (Ver::V4, Src::Bcast2) => Addr::V4(SUBNET2_BCAST),
         (_, Src::Mcast) => a.mcast_src,
         (Ver::V4, Src::Loopback) => Addr::V4([127, 0, 0, 1]),
         (Ver::V6, Src::Loopback) => Addr::V6(v6(0, 0, 0, 1)),
@@ -223,7 +263,15 @@ impl Dst {
     pub fn is_bcast_mcast(self) -> bool {
         matches!(
             self,
-            Dst::SubnetBcast | Dst::LimitedBcast | Dst::AllNodes | Dst::SolNode | Dst::GroupG | Dst::GroupU | Dst::SolNodeForeign | Dst::McastLast3Ours
+            Dst::SubnetBcast
+                | Dst::LimitedBcast
+                | Dst::AllNodes
+                | Dst::SolNode
+                | Dst::GroupG
+                | Dst::GroupU
+                | Dst::SolNodeForeign
+                | Dst::McastLast3Ours
+                | Dst::Subnet2Bcast
         )
     }
     /// foreign unicast address or a multicast group that is never joined (R1), independent of
@@ -245,7 +293,7 @@ impl Dst {
 impl Src {
     /// non-unicast source as listed by the statement: unspecified, broadcast, multicast
     pub fn is_non_unicast(self) -> bool {
-        matches!(self, Src::Unspec | Src::Bcast | Src::LBcast | Src::Mcast)
+        matches!(self, Src::Unspec | Src::Bcast | Src::LBcast | Src::Mcast | Src::Bcast2)
     }
 }
 impl Kind {
@@ -291,6 +339,7 @@ pub struct Cell {
     pub primed: bool,
     pub prefix: Prefix,
     pub auto_first: Option<First>,
+    pub layout: Layout,
 }
 
 fn port_from_json(v: &Value) -> Option<Port> {
@@ -311,7 +360,7 @@ impl Cell {
             "medium": self.med.name(), "ip_version": self.ver.name(), "kind": self.kind.name(),
             "ll_dst": self.ll.name(), "dst": self.dst.name(), "src": self.src.name(),
             "port": self.port.name(), "sockets": self.sock.name(), "group_g_joined": self.joined,
-            "neighbors_primed": self.primed, "prefix": self.prefix.name(),
+            "neighbors_primed": self.primed, "prefix": self.prefix.name(), "address_table": self.layout.name(),
             "first_cell": self.auto_first.map(|f| json!({"kind": f.kind.name(), "ll_dst": f.ll.name(), "dst": f.dst.name(), "src": f.src.name(), "port": f.port.name()})),
         })
     }
@@ -330,6 +379,11 @@ impl Cell {
             joined: b("group_g_joined")?,
             primed: b("neighbors_primed")?,
             prefix: Prefix::from_name(s("prefix")?)?,
+            // (artefacts written before the layout dimension existed used the first layout)
+            layout: match s("address_table") {
+                Some(n) => Layout::from_name(n)?,
+                None => Layout::Same2,
+            },
             auto_first: match v.get("first_cell") {
                 Some(f) if !f.is_null() => {
                     let fs = |k: &str| f.get(k).and_then(|x| x.as_str());
@@ -351,9 +405,9 @@ impl Cell {
             None => String::new(),
         };
         format!(
-            "{} {} {} ll={} dst={} src={} port={} sockets={} joined={} primed={} prefix={}{}",
+            "{} {} {} ll={} dst={} src={} port={} sockets={} joined={} primed={} addrs={} prefix={}{}",
             self.med.name(), self.ver.name(), self.kind.name(), self.ll.name(), self.dst.name(), self.src.name(),
-            self.port.name(), self.sock.name(), self.joined, self.primed, self.prefix.name(), first
+            self.port.name(), self.sock.name(), self.joined, self.primed, self.layout.name(), self.prefix.name(), first
         )
     }
 }
